@@ -756,6 +756,10 @@ private:
         // only pointers can be ordered: a pair of input or forward iterators is taken as it is
         if constexpr (is_pointer_v<It0> and is_pointer_v<It1>) {
             TETL_PRECONDITION(first <= last);
+        } else if constexpr (detail::RandomAccessIterator<It0> and detail::RandomAccessIterator<It1>) {
+            // other random access iterators: last must be reachable from first (the callers convert the
+            // difference to size_type, which would wrap for a negative one)
+            TETL_PRECONDITION(last - first >= 0);
         }
     }
 
